@@ -20,7 +20,7 @@ import (
 	"golang.org/x/tools/go/ssa/ssautil"
 )
 
-const repoDir = "/repo"
+var repoDir = "/repo" // VERIF_REPO overrides (scratch worktrees for seeded changes, vp run --with-repo)
 const repoMod = "github.com/llir/llvm"
 
 var verifDir = "/verif"
